@@ -53,7 +53,19 @@ def ladder_case(draw, kmax=4, rq=None):
 
 
 def _grid(c):
-    return np.logspace(c["top"], c["top"] - c["decades"], c["decades"] * c["ppd"] + 1)
+    f = np.logspace(c["top"], c["top"] - c["decades"], c["decades"] * c["ppd"] + 1)
+    u = c.get("uneven")
+    if u:
+        keep = np.ones(f.size, dtype=bool)
+        if u["kind"] == "drop":  # single points missing (e.g. excluded outliers)
+            for fr in u["fracs"]:
+                keep[1 + int(fr * (f.size - 3))] = False
+        else:  # two merged sweeps of different density: every other point missing below/above the split
+            k = 1 + int(u["split"] * (f.size - 3))
+            idx = np.arange(f.size)
+            keep[(idx > k if u["kind"] == "sparse-low" else idx < k) & (idx % 2 == 1) & (idx != f.size - 1) & (idx != 0)] = False
+        f = f[keep]
+    return f
 
 
 @st.composite
@@ -61,6 +73,12 @@ def nnls_case(draw):
     c = draw(ladder_case())
     c["mode"] = draw(st.sampled_from(["real", "imaginary"]))
     c["lam"] = draw(st.sampled_from([1e-3, -1.0, -2.0]))
+    # frequencies that are not evenly spaced on the logarithmic scale (the quadrature weights then differ from point to point)
+    u = draw(st.integers(0, 3)) if c["ppd"] >= 8 else 0  # thinned grids keep at least four points per decade
+    if u == 1:
+        c["uneven"] = {"kind": "drop", "fracs": draw(st.lists(st.floats(0, 1), min_size=1, max_size=3))}
+    elif u == 2:
+        c["uneven"] = {"kind": draw(st.sampled_from(["sparse-low", "sparse-high"])), "split": draw(st.floats(0.2, 0.8))}
     return c
 
 
@@ -107,6 +125,8 @@ def body_nnls(ctx, c):
     is_rq = any(e[2] != 1.0 for e in els)
     lam_label = {1e-3: "lambda:fixed", -1.0: "lambda:auto", -2.0: "lambda:lcurve"}[c["lam"]]
     labels = {"tr-nnls:" + c["mode"], lam_label, "rq" if is_rq else "rc"}
+    if c.get("uneven"):
+        labels.add("uneven-grid:" + c["uneven"]["kind"])
 
     def run(ff, ZZ):
         return calculate_drt(DataSet(ff, ZZ), method="tr-nnls", mode=c["mode"], lambda_value=c["lam"])
@@ -135,10 +155,10 @@ def body_nnls(ctx, c):
             la = float(np.trapezoid(g[m][order], np.log(tau[m][order]))) / R
             ctx.observe("peak-offset-decades", abs(am - math.log10(t)))
             ctx.observe("local-area/R", la)
-            ctx.check(abs(am - math.log10(t)) <= max(0.15, 1.25 / c["ppd"]), "peak-at-RC", c, f"largest gamma near tau_k={t:.4g} sits at {10**am:.4g} ({abs(am - math.log10(t)):.2f} decades away)")
+            ctx.check(abs(am - math.log10(t)) <= max(0.15, 1.25 / (c["ppd"] / 2 if c.get("uneven") else c["ppd"])), "peak-at-RC", c, f"largest gamma near tau_k={t:.4g} sits at {10**am:.4g} ({abs(am - math.log10(t)):.2f} decades away)")
             # a large (automatic) lambda broadens a peak beyond the +-0.75 decade window: claimed for lambda <= 1e-2 only
             if float(r.lambda_value) <= 1e-2:
-                ctx.check(0.80 <= la <= 1.10, "local-area-is-R", c,     f"area within +-0.75 decade of tau_k={t:.4g} is {la:.4f} R_k (lambda {float(r.lambda_value):.3g})")
+                ctx.check((0.75 if c.get("uneven") else 0.80) <= la <= 1.10, "local-area-is-R", c,     f"area within +-0.75 decade of tau_k={t:.4g} is {la:.4f} R_k (lambda {float(r.lambda_value):.3g})")
     # the peaks reported by the result are the local maxima of its own gamma
     thr = 0.1
     pt, pg = r.get_peaks(threshold=thr)
